@@ -5,8 +5,8 @@
 mod verif_nx_pipeline {
     use super::*;
 
-    const ALPHA: [&str; 22] = [
-        "begin ", "end ", "; ", "a ", ":= ", "if ", "then ", "else ", "( ", ") ", "{$ifdef X} ", "{$else} ", "{$endif} ",
+    const ALPHA: [&str; 23] = [
+        "begin ", "end ", "; ", "a ", ":= ", "if ", "then ", "else ", "( ", ") ", "{$ifdef X} ", "{$else} ", "{$endif} ", "{$define T} ",
         "//c\n", "procedure ", "var ", ": ", "case ", "of ", "asm ", "class ", ", ",
     ];
 
